@@ -8,12 +8,7 @@ package tc
 //@ for C14
 //@ filemode bv
 
-//@ # ---- independent oracle: CIDR membership, byte by byte --------------------------------------------
-//@ pure func abyte32(a bv32, i int) byte = uint8(a >> bv32(8 * (3 - i)))
-//@ pure func abyte128(a bv128, i int) byte = uint8(a >> bv128(8 * (15 - i)))
-//@ pure func ip4byte(ip net.IP, i int) byte = ite(len(ip) == 4, ip[i], ip[12 + i])
-//@ pure func contains4(n *net.IPNet, a bv32) bool = forall i in 0..3 :: (abyte32(a, i) & n.Mask[i]) == (ip4byte(n.IP, i) & n.Mask[i])
-//@ pure func contains16(n *net.IPNet, a bv128) bool = forall i in 0..15 :: (abyte128(a, i) & n.Mask[i]) == (n.IP[i] & n.Mask[i])
+//@ # The CIDR-membership oracle (contains4 / contains16, byte by byte) lives in /verif/lib/common.spec.
 
 //@ # ---- u32 selector semantics: a key (off, mask, val) matches when the 32-bit word at packet offset off,
 //@ # masked, equals val. For the IPv6 header the source address occupies offsets 8..23; any other offset
